@@ -1,6 +1,7 @@
 """C08 — SOO, StoSOO and DOO evaluate and expand cells by their optimistic rule."""
 from .. import configs
 from ..algorun import replay_algo, run_algo_task
+from ..world import QueryAfterRound
 from ..refs.soo_family import SweepOracle
 
 ID = "C08"
@@ -40,12 +41,17 @@ def tasks(tier, seed):
         for base in (("peak", "negpeak") if tier == "quick" else ("peak", "negpeak", "alt", "zero", "twopeak")):
             ts.append({"kind": "algo", "label": "dev/%s/%s" % (lab, base), "cfg": cfg, "mode": "dev", "T": 100,
                        "R": list(configs.R3), "base": base, "k": 1 if tier == "quick" else 2,
-                       "max_exec": 2000 if tier == "quick" else 30000, "cost": 8})
+                       "max_exec": 2000 if tier == "quick" else 30000, "cost": 8, "query": tier == "thorough"})
     return ts
 
 
 def _mk():
     return [SweepOracle()]
+
+
+def _mkq():
+    # thorough tier: get_last_point() may be called after any round (a budgeted choice point)
+    return [QueryAfterRound(), SweepOracle()]
 
 
 def _nontrivial(ctx):
@@ -55,11 +61,11 @@ def _nontrivial(ctx):
 
 
 def run_task(task):
-    return run_algo_task(task, _mk, nontrivial=_nontrivial)
+    return run_algo_task(task, _mkq if task.get("query") else _mk, nontrivial=_nontrivial)
 
 
 def replay(task, script):
-    return replay_algo(task, script, _mk)
+    return replay_algo(task, script, _mkq if task.get("query") else _mk)
 
 
 def bounds(tier):
